@@ -38,7 +38,7 @@ def main():
         from . import replay
         sys.exit(replay.replay_file(a.replay))
     try:
-        results, wall, work = framework.run_check(pid, modname, tier, seed, a.jobs, a.only.split(',') if a.only else None)
+        results, wall, work, info = framework.run_check(pid, modname, tier, seed, a.jobs, a.only.split(',') if a.only else None)
     except engine.BuildError as e:
         print('BUILD-ERROR: %s' % e)
         write_evidence(pid, tier, seed, [], time.time() - t0, note='build failed', mod=None)
@@ -54,8 +54,11 @@ def main():
         for g in r['gaps']:
             print('ENCODER-GAP obligation=%s: %s' % (r['name'], g))
             exit_code = max(exit_code, 2)
+        seen_u = {}
         for u in r['unknowns']:
-            print('SOLVER-UNKNOWN obligation=%s claim=%s site=%s' % (r['name'], u['claim'], u['site']))
+            seen_u[(u['claim'], u['site'])] = seen_u.get((u['claim'], u['site']), 0) + 1
+        for (cl, si), n in seen_u.items():
+            print('SOLVER-UNKNOWN obligation=%s claim=%s site=%s (%d paths)' % (r['name'], cl, si, n))
             exit_code = max(exit_code, 2)
         for w in r['missing_witness']:
             print('VACUITY obligation=%s: no reachability witness for %s' % (r['name'], w))
@@ -64,8 +67,12 @@ def main():
     from . import replay
     vio_n = 0
     for r in results:
+        per_key = {}
         for i, v in enumerate(r['violations']):
             key = v.get('key') or v['site'] or v['claim']
+            per_key[key] = per_key.get(key, 0) + 1
+            if per_key[key] > 3:
+                continue      # at most three models per claim are replayed
             rep = replay.replay_violation(pid, mod, r['name'], v, work, i)
             nrep += rep.get('traces', 0)
             v['replay'] = rep
@@ -99,17 +106,18 @@ def main():
         if exit_code == 2 and viol_lines:
             exit_code = 1
     ev = write_evidence(pid, tier, seed, results, time.time() - t0, mod=mod, work=work, violations=vio_n, nrep=nrep,
-                        known=sorted(known_hit))
+                        known=sorted(known_hit), info=info)
     if not a.keep:
         engine.cleanup(work)
     tot = lambda k: sum(r[k] for r in results)   # noqa
+    print('phases: %s  mir_dump_s=%s  per-obligation wall: %s' % (info, work['dump_s'], {r['name']: round(r['wall'], 1) for r in results}))
     print('%s tier=%s obligations=%d paths=%d queries(sat/unsat/unknown)=%d/%d/%d solver_s=%.1f wall_s=%.1f exit=%d'
           % (pid, tier, len(results), tot('paths'), tot('sat'), tot('unsat'), tot('unknown'), tot('solver_s'),
              time.time() - t0, exit_code))
     sys.exit(exit_code)
 
 
-def write_evidence(pid, tier, seed, results, wall, note=None, mod=None, work=None, violations=0, nrep=0, known=()):
+def write_evidence(pid, tier, seed, results, wall, note=None, mod=None, work=None, violations=0, nrep=0, known=(), info=None):
     os.makedirs(os.path.join(VERIF, 'evidence'), exist_ok=True)
     fns = set()
     summ = set()
@@ -146,6 +154,7 @@ def write_evidence(pid, tier, seed, results, wall, note=None, mod=None, work=Non
         'outside_claim': getattr(mod, 'OUTSIDE', []) if mod else [],
         'known_findings_rederived': list(known),
         'mir': {'crates': work['crates'], 'dump_s': work['dump_s']} if work else {},
+        'phases': info or {},
         'solver': 'z3 %s (python bindings), Int theory, division by lemma' % '.'.join(map(str, __import__('z3').get_version())),
     }
     ev = {
